@@ -128,6 +128,10 @@ def run(ctx):
     from .guards import check_aminusb_predicate
 
     check_aminusb_predicate(ctx, "R5")
+    ctx.rule("R6", "the writers' pre-flight applies segmentation / un-restriction exactly where the format needs it (evaluated guard matrix)", "a basis with general contractions or orbitals with alpha-minus-beta occupations reach a writer unconverted on some combination of attributes (e.g. when there are no orbitals)")
+    from .guards_semantics import check_guard_semantics
+
+    check_guard_semantics(ctx, "R6")
 
 
 def _check_unrestriction(ctx, cu, mo_cls):
